@@ -19,7 +19,10 @@ def codecOf (table : List (Bytes × Option Nat)) : Codec :=
     maxMsg := Gen.WalFacts.maxMsgSizeBytes }
 
 def B : Nat := Gen.WalFacts.headBufSize
-def flushFirst : Bool := Gen.WalFacts.rotateFlushesBeforeRename
+/-- the CURRENT behaviour of Group.RotateFile (fix ed188e7): flush the buffered writer, then rename.  Deliberately a
+constant and not the regenerated fact: `Props.C14.rotate_flushes_before_rename` ties the fact to `true`, so reverting
+the fix breaks that obligation AND the correspondence (the model keeps flushing, the code no longer does). -/
+def flushFirst : Bool := true
 
 def crcHex (bs : Bytes) : String := natToHexPad (Go.Crc32c.checksumNat bs) 8
 
